@@ -19,8 +19,8 @@ ALWAYS = ('no-internal-error', 'propagated-exception', 'subset', '_add_form/', '
 SELECT = {
     'C01': lambda l: True,
     'C03': lambda l: any(k in l for k in ('evaluated-against', 'stored-value-is', 'only-grow', 'never-removed', 'justified', 'met-fields-have-values', 'met-inputs-are-provided', 'announced-as-met', 'untouched')),
-    'C04': lambda l: l.startswith('_add_form') or any(k in l for k in ('schedules-only', 'queues-only', 'demanded-line-is-scheduled', 'required-lines-of-loaded', 'loaded-forms', 'registered-lines', 'scheduled-lines-are-known', 'no-lost-line', 'success-means-every')),
-    'C06': lambda l: any(k in l for k in ('work', 'idle-means', 'waits-on-inputs', 'not-yet-drained', 'prompt@', 'not-refused', 'remaining-keys', 'one-evaluation-per-attempt', 'justified', 'tracker-lists', 'no-answered-input', 'refusal-flag')),
+    'C04': lambda l: l.startswith('_add_form') or any(k in l for k in ('exactly-one-place', 'values-belong', 'unimplemented-lines-are', 'schedules-only', 'queues-only', 'demanded-line-is-scheduled', 'required-lines-of-loaded', 'loaded-forms', 'registered-lines', 'scheduled-lines-are-known', 'no-lost-line', 'success-means-every')),
+    'C06': lambda l: any(k in l for k in ('work', 'idle-means', 'waits-on-inputs', 'not-yet-drained', 'exactly-one-place', 'accounted-for', 'at-most-once', 'once-per-input', 'over-for-good', 'registered-one', 'values-belong', 'unimplemented-lines-are', 'stays-loaded', 'per-line-counters', 'prompt@', 'not-refused', 'remaining-keys', 'one-evaluation-per-attempt', 'justified', 'tracker-lists', 'no-answered-input', 'refusal-flag')),
     'C13': lambda l: any(k in l for k in ('prompt@', 'wait-on-input', 'input-waiters', 'no-answered-input', 'remaining-keys', 'prompted-keys', 'inputs-only-grow', 'answers-given', 'every-answer-given', 'met-inputs', 'inputs-untouched', 'not-refused')),
     'C20': lambda l: any(k in l for k in ('every-answer-given', 'answers-given', 'on-exception', 'inputs-only-grow', 'inputs-untouched', 'escaping-exception', 'input-map-only-grows')),
 }
